@@ -9,6 +9,7 @@ FUNCTIONS = [_IX + f for f in (
 )]
 SHARDS = {_IX + "insert": 8, _IX + "build": 8, _IX + "_remove_tags": 6, _IX + "remove": 6, _IX + "update": 4, _IX + "_remove_measurements": 2}
 ASSUMED = []
+STANDIN = "standins/dbdiff.py"
 TRUSTED = [
     "pyvc (symbolic executor + encoding of Python semantics, DESIGN 2.3) and z3/cvc5",
     "assumed contract of list.sort(key=...): stable permutation ordered by key (DESIGN 4.2)",
